@@ -1467,14 +1467,16 @@ static sexp sexp_load_dl (sexp ctx, sexp file, sexp env) {
   if (! handle) {
     return sexp_compile_error(ctx, "couldn't load dynamic library", file);
   }
+  sexp_gc_preserve2(ctx, res, old_dl);
   init = dlsym(handle, "sexp_init_library");
   if (! init) {
     res = sexp_c_string(ctx, dlerror(), -1);
     res = sexp_list2(ctx, file, res);
     dlclose(handle);
-    return sexp_compile_error(ctx, "dynamic library has no sexp_init_library", res);
+    res = sexp_compile_error(ctx, "dynamic library has no sexp_init_library", res);
+    sexp_gc_release2(ctx);
+    return res;
   }
-  sexp_gc_preserve2(ctx, res, old_dl);
   old_dl = sexp_context_dl(ctx);
   sexp_context_dl(ctx) = sexp_make_dl(ctx, file, handle);
   res = init(ctx, NULL, 3, env, sexp_version, SEXP_ABI_IDENTIFIER);
